@@ -248,7 +248,7 @@ PROPS["C12"] = dict(
     trusted_base=KANI_TB,
     kani=[
         H("c14::c12_overlaying_result_iterator_2x2", "tracked writes win over database reads, deletes hide, order "
-          "preserved, nothing is yielded after the first error (2+2)", timeout=1500),
+          "preserved, nothing is yielded after the first error (2+2)", timeout=3600),
         H("c14::c12_overlaying_result_iterator_3x3", "same, 3+3", timeout=3000, tiers=("thorough",)),
         H("c14::c12_overlaying_result_iterator_2x4", "same, 2+4", timeout=3000, tiers=("thorough",)),
     ],
